@@ -24,6 +24,33 @@ use fastrace::prelude::*;
 
 static REPORTS: AtomicU64 = AtomicU64::new(0);
 
+/// Counts heap allocations: a disabled `flush()` allocates nothing (starting a helper thread
+/// would), whatever was called before it.
+struct CountingAlloc;
+static ALLOCS: AtomicU64 = AtomicU64::new(0);
+unsafe impl std::alloc::GlobalAlloc for CountingAlloc {
+    unsafe fn alloc(&self, l: std::alloc::Layout) -> *mut u8 {
+        ALLOCS.fetch_add(1, Ordering::Relaxed);
+        std::alloc::System.alloc(l)
+    }
+    unsafe fn dealloc(&self, p: *mut u8, l: std::alloc::Layout) {
+        std::alloc::System.dealloc(p, l)
+    }
+}
+#[global_allocator]
+static GLOBAL: CountingAlloc = CountingAlloc;
+
+/// `flush()` of the disabled build: no allocation, no thread.
+fn inert_flush() -> Result<(), String> {
+    let a0 = ALLOCS.load(Ordering::Relaxed);
+    fastrace::flush();
+    let n = ALLOCS.load(Ordering::Relaxed) - a0;
+    if n != 0 {
+        return Err(format!("flush() allocated {n} time(s) (a disabled flush does nothing; starting a thread allocates)"));
+    }
+    Ok(())
+}
+
 struct Counting;
 impl Reporter for Counting {
     fn report(&mut self, _spans: Vec<SpanRecord>) {
@@ -268,7 +295,7 @@ fn step(st: &mut State, op: usize) -> Result<(), String> {
                 return Err("#[trace] async fn changed behaviour".into());
             }
         }
-        28 => fastrace::flush(),
+        28 => inert_flush()?,
         29 => fastrace::set_reporter(Counting, Config::default().report_interval(std::time::Duration::from_millis(1))),
         _ => unreachable!(),
     }
@@ -329,7 +356,9 @@ fn main() {
                 }
             }
             release(&mut st);
-            fastrace::flush();
+            if let Err(e) = inert_flush() {
+                problem.get_or_insert(e);
+            }
             if problem.is_none() && REPORTS.load(Ordering::SeqCst) != r0 {
                 problem = Some("a reporter was called".into());
             }
